@@ -29,3 +29,8 @@ func VerifC14AggregateChallenge(commitment, public []byte, message Hash) ([32]by
 	copy(out[:], x.Bytes())
 	return out, nil
 }
+
+// VerifC14Domains returns the domain-separation strings of the coefficient and nonce hashes.
+func VerifC14Domains() (string, string) {
+	return aggregateCoefficientDomain, aggregateNonceDomain
+}
